@@ -11,6 +11,9 @@ CONSTANTS
     MaxNow = 6
     MaxOps = 5
     MaxQ = 2
+    MaxLen = 9
+    BigOn = 3
+    WithFault = FALSE
     EmptyOn = 2
     Hist = FALSE
 INVARIANT Inv
